@@ -16,6 +16,7 @@ DRIVER = os.path.join(VERIF, "psa-extract", "target", "debug", "psa-extract")
 
 LIB_PKGS = ["patronus", "patronus-dse", "patronus-egraphs"]
 LIB_CRATES = ["patronus", "patronus_dse", "patronus_egraphs"]
+DEP_CRATES = ["baa"]  # registry dependencies whose facts are needed (locked version from Cargo.lock)
 
 
 class EngineError(Exception):
@@ -63,14 +64,14 @@ def _run_cargo(repo, scope, out_dir, nonce, crates, target_dir):
     env.update({
         "LD_LIBRARY_PATH": _sysroot() + "/lib",
         "RUSTFLAGS": "-Awarnings",
-        "RUSTC_WORKSPACE_WRAPPER": DRIVER,
+        "RUSTC_WRAPPER": DRIVER,
         "PSA_OUT": out_dir,
         "PSA_CRATES": ",".join(crates),
         "PSA_NONCE": nonce,
         "CARGO_TARGET_DIR": target_dir,
         "CARGO_NET_OFFLINE": "true",
     })
-    env.pop("RUSTC_WRAPPER", None)
+    env.pop("RUSTC_WORKSPACE_WRAPPER", None)
     cmd = ["cargo", "+nightly", "check", "--offline"]
     if scope == "lib":
         for p in LIB_PKGS:
@@ -111,9 +112,11 @@ def build_facts(scope="lib", repo=REPO, use_cache=True):
         fp = os.path.join(target, "debug", ".fingerprint")
         if os.path.isdir(fp):
             for d in os.listdir(fp):
-                if re.match(r"^(patronus|pypatronus|bmc|sim|simplify|view|egraphs-cond-synth|cond-synth|patron)", d):
+                if re.match(r"^(patronus|pypatronus|bmc|sim|simplify|view|egraphs-cond-synth|cond-synth|patron|baa-)", d):
                     shutil.rmtree(os.path.join(fp, d), ignore_errors=True)
-        crates = ["*"] if scope == "all" else LIB_CRATES
+        crates = LIB_CRATES + DEP_CRATES
+        if scope == "all":
+            crates = crates + ["@workspace"]
         t0 = time.time()
         r = _run_cargo(repo, scope, fdir, nonce, crates, target)
         dt = time.time() - t0
@@ -216,6 +219,9 @@ class Facts:
             if c.name == name and not c.is_test:
                 return c
         raise EngineError("no facts for crate " + name)
+
+    def has_crate(self, name):
+        return any(c.name == name for c in self.crates)
 
     def all_fns(self, include_tests=True):
         """every function of every analysed crate once: for test builds of a crate that is also present as a
